@@ -3,7 +3,7 @@ LEVEL = "proof"
 CONTRACT_MODULES = ["contracts.sorting", "contracts.refcount", "contracts.tasks", "contracts.tasks_proto", "contracts.tasks_rebuild"]
 FUNCTIONS = ["RefCount.append", "RefCount.extend", "RefCount.remove", "Manager.register", "Manager.unregister", "Manager.set_value",
              # the two methods that rebuild the indices from the registered tasks: indices == F(tasks) afterwards, whatever they held before
-             "Manager.register@rebuild", "Manager.refresh@rebuild", "Manager.clone", "Manager.__init__@fresh-manager"]
+             "Manager.register@rebuild", "Manager.refresh@rebuild", "Manager.clone", "Manager.__init__@fresh-manager", "Manager.cleanup@abstract-identity"]
 # refresh rebuilds the indices from the registered tasks (C17)
 # load replaces / adds definitions through unregister + register and keeps the index invariant (C17)
 BORROW = [('C17', ['Manager.refresh', 'Manager.load'])]
@@ -23,7 +23,9 @@ TRUSTED = [
     "arrays, the enumeration as the loop's iteration order)",
     "z3 / cvc5", "Cython compiles refs.py (RefCount) faithfully",
     "the constructor call Manager() runs Manager.__init__ on a fresh object (Manager.__init__ is proved: no tasks, empty indices, thawed)",
-    "Manager.cleanup is the identity on the abstract index state (absent == empty entry); checked at run time on supports",
+    "Manager.cleanup: proved to change no count of any index (Manager.cleanup@abstract-identity); that an absent entry and an empty one are the same "
+    "abstract state is the modelling decision behind it (DESIGN 2.3(2)); in its loop `for dct in self.rdeps, ...` the variable is read as a reference to "
+    "the field it stands for, and list(d.items()) as an arbitrary enumeration of some keys",
     "dict.values() enumerates the values along an arbitrary duplicate-free enumeration of the keys; dict.update: the argument's entries win",
 ]
 ASSUMPTIONS = [
